@@ -280,7 +280,7 @@ pub fn run(ctx: &Ctx) -> (Outcome, String, Option<bool>) {
     let out = run_sharded(
         ctx,
         "cost",
-        ctx.scale(3_000, 60_000),
+        ctx.scale(8_000, 80_000),
         || arb_cost(thorough),
         |c, st, _| {
             let ops = build(c);
